@@ -69,9 +69,14 @@ FIXED = [
  ("C09", "fix: a string does not contain nil", "{% if 'a<nil>b' contains nothing %} was true: the nil needle was spelled '<nil>'"),
  ("C10", "fix: ordered maps compare the same way under ==, case/when and contains", "case/when, array contains and uniq compared yaml.MapSlice entries as Go structs ({a: 1} vs {a: int64(1)} differed although == said equal); [] == MapSlice{} was true from the left only (also C09)"),
  ("C17", "fix: a value of a named string type that spells a number is a number for the numeric filters", "{{ t | plus: 1 }} with t = Title(\"2.5\") failed with a conversion error"),
+ ("C08", "fix: upcase, downcase, capitalize and escape_once take no argument", "{{ 'a' | upcase: 1 }} was accepted: the four filters were declared with an unused second parameter"),
+ ("C08", "fix: an integer index does not read the entry of a string-keyed map", "{{ m[65] }} read m['A'] (Go's integer-to-string conversion takes the integer for a code point)"),
 ]
 KNOWN = [
  # (property, key, what)
+ ("C08", "whitespace-in-parts|filter-colon|error", "{{ s | append : \"a\" }} is a syntax error: white space between a filter name and its colon changes the meaning (the ragel lexer makes 'name:' one token; ragel is not installed, so the generated lexer cannot be rebuilt here)"),
+ ("C08", "whitespace-in-parts|dot-after-space|error", "{{ a . size }} is a syntax error: white space after the dot of a property (the lexer makes '.name' one token)"),
+ ("C08", "whitespace-in-parts|dot-then-space|error", "{{ a. size }} is a syntax error: white space after the dot of a property (the lexer makes '.name' one token)"),
 ]
 def sha(prefix):
     out = subprocess.run(["git","-C","/repo","log","--format=%h %s"],capture_output=True,text=True).stdout.splitlines()
